@@ -699,7 +699,7 @@ func checksumAfterDataRule(c *Ctx, r *Result, rule string, scope func(string) bo
 				continue
 			}
 			dst, isSl := call.Call.Args[0].(*ssa.Slice)
-			if !isSl || dst.High != nil || stripSlices(dst) != buf || !canReach(call, at) {
+			if !isSl || stripSlices(dst) != buf || !canReach(call, at) {
 				continue
 			}
 			src := fb.lenLin(call.Call.Args[1])
@@ -708,9 +708,17 @@ func checksumAfterDataRule(c *Ctx, r *Result, rule string, scope func(string) bo
 			}
 			n++
 			j++
+			// start of the destination: the low bounds along the chain of slicings
 			lo := linConst(0)
-			if dst.Low != nil {
-				lo = fb.lin(dst.Low)
+			for s := ssa.Value(dst); ; {
+				sl, isS := s.(*ssa.Slice)
+				if !isS {
+					break
+				}
+				if sl.Low != nil {
+					lo = lo.add(fb.lin(sl.Low), 1)
+				}
+				s = sl.X
 			}
 			ok := fb.ProveGE0At(fb.lin(k).add(lo, -1).add(src, -1), call)
 			r.Check(ok, rule, fmt.Sprintf("%s#data-ends-before-the-checksum-%d", c.Name(fn), j), c.InstrPos(call), "copy of "+fb.linString(src)+" bytes at "+fb.linString(lo)+": its end is proven <= "+fb.linString(fb.lin(k))+", where the checksum goes (otherwise the last bytes of the data are overwritten by the checksum or dropped, and the block reads back with a valid checksum)")
